@@ -1,6 +1,7 @@
 import Drivers.Proto
 import St4sd.Model.Hash
 import St4sd.Model.HashFs
+import St4sd.Model.HashCache
 /-!
 Model driver for property C16.
 
@@ -15,6 +16,11 @@ ops:
 * `history`: `{md5, bps, comps:[… refs with loc:{kind:direct|produced, p, path}], fs:[[path, node]…],
   ops:[{op:write|touch|remove|rename|reload,…}], paths:[…]}` → `{obs:[{strong, fuzzy, views}…]}`: one observation
   before the first and after every operation (`Hash.states` / `Hash.hashesFs`), `views` = `Hash.view` of `paths`;
+* `session`: `{md5, bps, comps, fs, events:[{op:write|touch|remove|rename|reload,…} | {op:compute, fuzzy, j} |
+  {op:reset, j} | {op:get, fuzzy, j}]}` → `{events:[{ser|null, hash} | null …], disciplined, wellOrdered}`: the answer of every
+  event of the session that starts with empty caches (`Hash.answers`, `Hash.sersS` on `Hash.Session.new`), whether
+  the session keeps the discipline of `C16.session_hashes_are_current` (`Hash.disciplinedB`) and whether the
+  numbering of the components is topological (`Hash.wellOrderedB`);
 * `ser`: `{image:str|null, args, exe, files:[…]}` → `{ser}` (`Hash.serialize`);
 * `tokens`: `{s}` → `{tokens}`; `subword`: `{pat, rep, s}` → `{out}`.
 -/
@@ -128,6 +134,14 @@ def jview : Option (Option (List Char)) → Json
   | some none => jstr "dir"
   | some (some c) => jobj [("content", jchars c)]
 
+def parseSOp (j : Json) : Except String SOp := do
+  let op ← getStr j "op"
+  match op with
+  | "compute" => return .compute (← getBool j "fuzzy") (← getNat j "j")
+  | "get" => return .get (← getBool j "fuzzy") (← getNat j "j")
+  | "reset" => return .reset (← getNat j "j")
+  | _ => return .fs (← parseOp j)
+
 def handle (j : Json) : Except String Json := do
   let op ← getStr j "op"
   match op with
@@ -143,6 +157,20 @@ def handle (j : Json) : Except String Json := do
       jarr (((sersFs md5 fuzzy bps s comps).zip (hashesFs md5 fuzzy bps s comps)).map fun (x, h) => outOne x h)
     return jobj [("obs", jarr ((states fs ops).map fun s =>
       jobj [("strong", side s false), ("fuzzy", side s true), ("views", jarr (paths.map fun p => jview (view s p)))]))]
+  | "session" =>
+    let tab ← (← getArr j "md5").mapM parsePair
+    let bps ← (← getArr j "bps").mapM parseBp
+    let comps ← (← getArr j "comps").mapM parseSComp
+    let fs ← (← getArr j "fs").mapM parseFsEntry
+    let evs ← (← getArr j "events").mapM parseSOp
+    let md5 := tableMd5 tab
+    let s0 := Session.new fs comps.length
+    let out := ((sersS md5 bps comps s0 evs).zip (answers md5 bps comps s0 evs)).map fun (x, h) =>
+      match h with
+      | some h => jobj [("ser", match x with | some x => jchars x | none => Json.null), ("hash", jchars h)]
+      | none => Json.null
+    return jobj [("events", jarr out), ("disciplined", Json.bool (disciplinedB md5 bps comps s0 evs)),
+                 ("wellOrdered", Json.bool (wellOrderedB comps))]
   | "world" =>
     let tab ← (← getArr j "md5").mapM parsePair
     let bps ← (← getArr j "bps").mapM parseBp
